@@ -21,6 +21,12 @@ func (group *Group) AddRtmpPushSession(url string, session *rtmp.PushSession) {
 	group.mutex.Lock()
 	defer group.mutex.Unlock()
 	if group.url2PushProxy != nil {
+		if group.rtmpPubSession == nil && group.rtspPubSession == nil {
+			// 建连期间pub已经离开了（stopPushIfNeeded 关不到还在建连中的session）：转推随pub结束，不再加入group
+			Log.Infof("[%s] [%s] relay push connected but pub session is gone, dispose it.", group.UniqueKey, session.UniqueKey())
+			session.Dispose()
+			return
+		}
 		group.url2PushProxy[url].pushSession = session
 	}
 }
